@@ -1338,6 +1338,56 @@ pub fn c18(c: &Collector, g: &mut Guard) {
     g.need(c, "pre_pending_wrap");
 }
 
+/// D2 allows DECRC to land on x == columns only for a cursor that was SAVED in the pending-wrap
+/// column. The savepoint does not record the width at the time of the save, so this replays the
+/// script and tracks it. Some(width at the matching save) or None if the script cannot be tracked.
+fn width_at_matching_save(columns: u32, lines: u32, script: &[Op]) -> Option<u32> {
+    let mut s = Screen::new(columns, lines);
+    let mut widths: Vec<u32> = Vec::new();
+    for op in script {
+        match op {
+            Op::SaveCursor => widths.push(s.columns),
+            Op::RestoreCursor => {
+                widths.pop();
+            }
+            Op::Feed(..) | Op::FeedBytes(..) => return None,
+            _ => {}
+        }
+        if apply(&mut s, op).is_err() {
+            return None;
+        }
+        if widths.len() != s.savepoints.len() {
+            return None;
+        }
+    }
+    widths.last().copied()
+}
+
+fn c14_d2_check(c: &Collector, t: &Trans, engine: &str) {
+    if !matches!(t.op, Op::RestoreCursor) {
+        return;
+    }
+    if let (Ok((_, post, _)), Some(top)) = (t.outcome, t.pre.saves.last()) {
+        if post.cursor.x == post.columns && top.cursor.x == post.columns {
+            if let Some(w) = width_at_matching_save(t.columns, t.lines, t.script) {
+                if top.cursor.x != w {
+                    viol(
+                        c,
+                        "C14",
+                        engine,
+                        t,
+                        "restored-past-the-last-column",
+                        format!(
+                            "DECRC left the cursor at x == columns = {} although it was saved at column {} of a {}-column screen (not in the pending-wrap column): the saved position must be clamped into the current screen",
+                            post.columns, top.cursor.x, w
+                        ),
+                    );
+                }
+            }
+        }
+    }
+}
+
 // =====================================================================  C14
 pub fn c14(c: &Collector, g: &mut Guard) {
     let gs: Vec<(u32, u32)> = if c.thorough() { vec![(1, 1), (3, 2), (3, 3), (4, 3), (5, 4)] } else { vec![(1, 1), (3, 2), (3, 3)] };
@@ -1508,6 +1558,7 @@ pub fn c14(c: &Collector, g: &mut Guard) {
                 if t.pre.saves.len() >= 2 && matches!(t.op, Op::RestoreCursor) {
                     local.count("nested_restore");
                 }
+                c14_d2_check(c, t, "E2.bfs");
                 refine_all(c, "C14", "E2.bfs", t, local)
             } else {
                 if let Ok((_, post, _)) = t.outcome {
